@@ -1,11 +1,12 @@
 """C02 native replay (data-flow clauses): with qubit-order optimisation on, the drive handed to
 hamiltonian.update_H for MPS site k must be the drive of register atom perm[k], the matrix handed
-to make_H must be J[perm[i], perm[j]], and the run must report the same occupations as with the
-optimisation off."""
+to make_H must be J[perm[i], perm[j]], a given initial state must be re-keyed by perm, and the run
+must report the same occupations as with the optimisation off."""
 import os, sys
 sys.path.insert(0, os.path.dirname(os.path.abspath(__file__)))
 import torch
 import perm_native as N
+import perm_units as U
 
 
 def main():
@@ -16,35 +17,37 @@ def main():
     if perm == [0, 1, 2, 3]:
         print("NOT-REPRODUCED: the optimiser kept the register order on the chain 0-2-1-3 (scenario needs a reordering)")
         return 0
+    msgs = []
     calls = N.handed_drives(impl)
-    J = N.chain_matrix()
-    got_J = impl.current_interaction_matrix
-    want_J = J[impl.qubit_permutation][:, impl.qubit_permutation]
-    if not torch.equal(got_J, want_J):
-        print(f"REPRODUCED: matrix handed to make_H is not J[perm[i], perm[j]] for perm {perm}: {got_J.tolist()}")
-        return 1
     om, de, ph = N.local_drives()
     for name, reg_vals in (("omega", om), ("delta", de), ("phi", ph)):
         got = calls[-1][name].real.tolist()
         want = [reg_vals[0, p].real.item() for p in perm]
         if got != want:
-            print(f"REPRODUCED: qubit_permutation = {perm} (site k holds register atom perm[k]); per-atom {name} = "
-                  f"{reg_vals[0].real.tolist()}; hamiltonian.update_H received {name} = {got} for sites 0..3, "
-                  f"expected {want}")
-            _, r_on = N.run(True)
-            _, r_off = N.run(False)
-            print(f"  end-to-end: final occupations with optimize_qubit_ordering=False {[round(x, 5) for x in r_off.occupation[-1].tolist()]}"
-                  f" vs True {[round(float(x), 5) for x in r_on.occupation[-1]]} (atom order {r_on.atom_order})")
-            return 1
+            msgs.append(f"qubit_permutation = {perm} (site k holds register atom perm[k]); per-atom {name} = "
+                        f"{reg_vals[0].real.tolist()}; hamiltonian.update_H received {name} = {got} for sites 0..3, "
+                        f"expected {want}")
+            break
+    for unit in (U.init_unit, U.interaction_matrix_unit, U.update_H_unit, U.initial_state_unit):
+        m = unit()
+        if m:
+            msgs.append(m)
     _, r_on = N.run(True)
     _, r_off = N.run(False)
     a, b = torch.as_tensor(r_on.occupation[-1]), torch.as_tensor(r_off.occupation[-1])
     if not torch.allclose(a, b, atol=1e-6):
-        print(f"REPRODUCED: occupations differ between optimize_qubit_ordering=True {a.tolist()} and False {b.tolist()}")
+        msgs.append(f"end-to-end: final occupations with optimize_qubit_ordering=False {[round(float(x), 5) for x in b]}"
+                    f" vs True {[round(float(x), 5) for x in a]} (atom order {tuple(r_on.atom_order)})")
+    if msgs:
+        print("REPRODUCED: " + msgs[0])
+        for m in msgs[1:]:
+            print("  also: " + m)
         return 1
-    print(f"NOT-REPRODUCED: perm {perm}: drives and couplings reach the right sites; occupations agree with/without reordering")
+    print(f"NOT-REPRODUCED: perm {perm}: drives, couplings and initial amplitudes reach the right sites; "
+          "occupations agree with/without reordering")
     return 0
 
 
 if __name__ == "__main__":
-    sys.exit(main())
+    ROOT = os.path.abspath(sys.argv[2] if len(sys.argv) > 2 else os.getcwd())
+    sys.exit(N.cached("c02", main, ROOT))
